@@ -20,6 +20,7 @@
  *            L<int> pin header length   v validate_lead   l read_lead
  *            h read_header   o zck_init_read (lead+header)   c clear_error
  *            a zck_init_adv_read (implicit before the first op)
+ *            U<0|1> set ZCK_UNCOMP_HEADER on the (reading) context   W<fileidx> the file is rewritten in place with file <fileidx>'s bytes
  *            Fpipe | Fsock | Ffifo : (first op) the image is presented through a pipe / a socket pair / a named FIFO instead of a
  *                    regular file (everything is queued before the library reads)
  *            Foff  : (first op) the image follows a pristine copy of the whole unpatched file in the same descriptor, which is
@@ -96,6 +97,17 @@ static int try_open_mode(int mode, int htype, const char *hexdigest) {
             zck_clear_error(z);
             r = zck_read_header(z);
         }
+    } else if(mode == 5) {
+        /* options an application may have set on the context before it opens the file for reading (accepted or not, they are
+         * not part of what authenticates the header) */
+        if(r) {
+            bool a = zck_set_ioption(z, ZCK_UNCOMP_HEADER, 1);
+            bool b = zck_set_ioption(z, ZCK_HASH_CHUNK_TYPE, ZCK_HASH_SHA512);
+            bool c = zck_set_ioption(z, ZCK_MANUAL_CHUNK, 1);
+            (void)a; (void)b; (void)c;
+            zck_clear_error(z);
+        }
+        r = r && zck_read_lead(z) && zck_read_header(z);
     } else if(mode == 4) {
         /* a caller that does not give up at the first failure: clear the error and ask again (each step up to three times) */
         int l = 0, h = 0;
@@ -292,6 +304,15 @@ int main(int argc, char **argv) {
                 case 'h': r = zck_read_header(z); break;
                 case 'o': if(!presented) lseek(memfd, 0, SEEK_SET); r = zck_init_read(z, curfd); inited = 1; break;
                 case 'c': r = zck_clear_error(z); break;
+                case 'U': r = zck_set_ioption(z, ZCK_UNCOMP_HEADER, atoll(op + 1)); break;
+                case 'W': {
+                    /* the file behind the descriptor is rewritten in place (another file's bytes), position back at its start */
+                    int fj = atoi(op + 1);
+                    if(fj < 0 || fj >= nfiles) return 3;
+                    set_image(fdata[fj], flen[fj]);
+                    r = 1;
+                    break;
+                }
                 case 'a': r = zck_init_adv_read(z, curfd); inited = 1; break;
                 default: return 3;
                 }
